@@ -9,7 +9,7 @@ reflection coefficients) and pminvar.  N up to 128, m up to 16: ObsC16.tla.
 import numpy as np
 
 from .. import core, material as M, tlc, obs
-from ..kern_util import call_guard, cmp_vec, live_object_dev
+from ..kern_util import call_guard, cmp_vec, live_object_dev, entry_variants
 
 
 def eval_form(quad, nfft):
@@ -43,21 +43,25 @@ def replay_state(chk, st, cplx):
         for sampling in (1.0, 2.0, 0.5):
             exp = sampling / form.real
             case = {'x': xa, 'order': m, 'NFFT': nfft, 'sampling': sampling, 'expect': exp}
-            ok, res = call_guard(minvar, xa.copy(), m, sampling=sampling, NFFT=nfft)
-            chk.evaluations += 1
-            if not ok:
-                chk.violation('C16:minvar:%s:raises' % mode, 'minvar raises %r' % (res,), case)
-                continue
-            psd, A, k = res
-            bad = (cmp_vec(psd, exp, tol=1e-7, name='psd') or cmp_vec(A, expA, tol=1e-7, name='ar vector')
-                   or cmp_vec(k, expK, tol=1e-7, name='reflection'))
-            if bad:
-                what = 'psd' if 'psd' in bad else 'model'
-                chk.violation('C16:minvar:%s:%s' % (mode, what),
-                              'minvar(x=%s, m=%d, sampling=%s, NFFT=%d) is not T/(e^H R^-1 e) of the Burg model: %s'
-                              % (xa.tolist(), m, sampling, nfft, bad), dict(case, observed=psd))
-            if ok and not (np.isrealobj(psd) and np.all(psd > 0)):
-                chk.violation('C16:minvar:%s:not-positive' % mode, 'minvar PSD is not real and strictly positive', case)
+            counter = getattr(chk, '_c16_counter', 0)
+            chk._c16_counter = counter + 1
+            for ename, xin, tol in entry_variants(xa, cplx, counter, full=chk.tier != 'quick'):
+                tol = 1e-7 if tol < 1e-6 else 1e-3
+                ok, res = call_guard(minvar, xin if isinstance(xin, list) else xin.copy(), m, sampling=sampling, NFFT=nfft)
+                chk.evaluations += 1
+                if not ok:
+                    chk.violation('C16:minvar:%s:raises:%s' % (mode, ename), 'minvar raises %r (%s input)' % (res, ename), case)
+                    continue
+                psd, A, k = res
+                bad = (cmp_vec(psd, exp, tol=tol, name='psd') or cmp_vec(A, expA, tol=tol, name='ar vector')
+                       or cmp_vec(k, expK, tol=tol, name='reflection'))
+                if bad:
+                    what = 'psd' if 'psd' in bad else 'model'
+                    chk.violation('C16:minvar:%s:%s:%s' % (mode, what, ename),
+                                  'minvar(x=%s as %s, m=%d, sampling=%s, NFFT=%d) is not T/(e^H R^-1 e) of the Burg model: %s'
+                                  % (xa.tolist(), ename, m, sampling, nfft, bad), dict(case, entry=ename, observed=psd))
+                if not (np.isrealobj(psd) and np.all(psd > 0)):
+                    chk.violation('C16:minvar:%s:not-positive' % mode, 'minvar PSD is not real and strictly positive', case)
         # the class: same values (doubled one-sided for real data)
         exp = 1.0 / form.real
         ok, obj = call_guard(lambda: pminvar(xa.copy(), m, NFFT=nfft))
